@@ -38,3 +38,23 @@ Proof. repeat split; cbn; lia. Qed.
 (* ex_prog is an ordinary program: every left-hand side is unindexed *)
 Example ex_ordinary : forall i k, In (i, k) (prog_lhs float ex_prog) -> k = 0.
 Proof. intros i k H. cbn in H. destruct H as [H|[]]. inversion H. reflexivity. Qed.
+
+(* ---- the Fortran-engine frame theorem: its hypotheses are satisfiable (identity equations block, W empty), and a
+   feasible period spelled negatively is solved in place ---- *)
+Require Fsic.Fortran.FSolve.
+Require Import EvalFortran.
+
+Example exF_frame_hyps :
+  py_pos (length (status exF_s)) (-2) = Some 2%nat /\ hd 0%nat (shape (vals_of exF_s)) = length (status exF_s) /\
+  (forall r, In r (FSolve.fm_endo exF_fm) -> 1 <= r <= Z.of_nat (length (vals_of exF_s))) /\
+  (forall v : vals float, shape v = shape (vals_of exF_s) -> agree_outside (fun _ _ => False) v ((fun (_ : Z) (w : vals float) => w) 3 v)).
+Proof.
+  split; [reflexivity|]. split; [reflexivity|]. split.
+  - intros r [<-|[]]. cbn. lia.
+  - intros v _. apply agree_refl.
+Qed.
+
+Example exF_feasible_negative_t :
+  exF_solve_t exF_fm exF_d (exF_o 0) (-2) exF_s =
+  (mkState (vals_of exF_s) [Unsolved; Unsolved; Solved; Unsolved] [-1; -1; 1; -1] [], Ret true).
+Proof. vm_compute. reflexivity. Qed.
